@@ -324,6 +324,17 @@ fn get_filename_from_diff_header_line_file_path(path: &str) -> Option<&str> {
     })
 }
 
+/// Verification hook: the file name handed to `Painter::set_syntax` (0: from a `--- `/`+++ `
+/// marker line of plain `diff -u`; 1: from an already extracted file path).
+#[cfg(dandavison_delta_verif)]
+pub fn verif_filename_for_syntax(kind: usize, s: &str) -> Option<&str> {
+    if kind == 0 {
+        get_filename_from_marker_line(s)
+    } else {
+        get_filename_from_diff_header_line_file_path(s)
+    }
+}
+
 fn parse_diff_header_line(line: &str, git_diff_name: bool) -> (String, FileEvent) {
     match line {
         line if line.starts_with("--- ") || line.starts_with("+++ ") => {
